@@ -1,5 +1,5 @@
 (* Extraction of the follower resync model (check_some and its helpers). ExtrOcamlBasic only. *)
 From Coq Require Import Extraction ExtrOcamlBasic ZArith NArith List.
-From T38 Require Import Base.Bytes Model.Follow Model.FollowGen.
+From T38 Require Import Base.Bytes Model.Follow Model.FollowGen Model.FollowTol.
 Extraction Language OCaml.
-Extraction "model.ml" Z.add Z.of_N Nat.add check_some flen blen bytes_eqb run toy_app grun gstep phase_of proved_cfg pinned_cfg proved_ops.
+Extraction "model.ml" Z.add Z.of_N Nat.add check_some flen blen bytes_eqb run toy_app grun gstep phase_of proved_cfg pinned_cfg proved_ops proved_tolerated mem_name state_only_name.
